@@ -422,9 +422,9 @@ Example ex_reachable_fail :
   pc (jobs s 2) = PReturned DONE /\ launches (jobs s 2) = 1%nat /\
   past_loop (pc (jobs s 2)) = true /\ unfinished s = 1.
 Proof.
-  simpl. split; [reflexivity|]. split; [apply reachable_final; vm_compute; reflexivity|].
+  cbv zeta. split; [reflexivity|]. split; [apply reachable_final; vm_compute; reflexivity|].
   repeat split; try (vm_compute; reflexivity).
-  apply fa_direct with (k := 0%nat); [simpl; auto|vm_compute; reflexivity].
+  apply fa_direct with (k := 0%nat); [vm_compute; auto|vm_compute; reflexivity].
 Qed.
 
 Definition after (W : workload) (s : state) (l : label) : state :=
@@ -441,11 +441,11 @@ Example ex_launch_and_wait :
     reachable W_fail s3 /\ is_some (step W_fail s3 l2) = true /\ wait_completes s3 (after W_fail s3 l2) /\
     wst (after W_fail s3 l2) = WRaised.
 Proof.
-  set (la := L_fail ++ [LDeliver 3]%nat).
+  set (la := removelast L_fail).
   set (lb := L_fail ++ L_fail_end).
   exists (final W_fail all_fixed la), (final W_fail all_fixed (removelast lb)), (LRun 0), (LRun 0).
   split; [apply reachable_final; vm_compute; reflexivity|].
-  split; [vm_compute; reflexivity|]. split; [vm_compute; reflexivity|]. split; [simpl; auto|].
+  split; [vm_compute; reflexivity|]. split; [vm_compute; reflexivity|]. split; [vm_compute; auto|].
   split; [apply reachable_final; vm_compute; reflexivity|].
   split; [vm_compute; reflexivity|]. split; [split; vm_compute; reflexivity|vm_compute; reflexivity].
 Qed.
